@@ -129,8 +129,12 @@ UNSUPPORTED_RE = re.compile(
     r'\bUSIZE\b|\bManuallyDrop\b|\bMaybeUninit\b|\.chunks\(|\.chunks_exact_mut\(|\bfrom_utf8_unchecked|\bmatch\b.*\bref\b')
 
 
-def check_supported(name, body):
-    m = UNSUPPORTED_RE.search(body)
+def check_supported(name, body, allow=()):
+    """`allow`: method names that, after rewriting, denote prelude primitives of the unit (e.g. Ptr::add / Ptr::cast)"""
+    probe = body
+    for a in allow:
+        probe = probe.replace(a, ' ' * len(a))
+    m = UNSUPPORTED_RE.search(probe)
     if m:
         raise Unsupported('function %s: construct outside the rewrite table survives: %r (near: %s)' % (
             name, m.group(0), body[max(0, m.start() - 60):m.end() + 40]))
